@@ -61,6 +61,13 @@ def Page.indices (p : Page) (x y : Nat) : Except Panic (Nat × Nat) :=
 
 def bitMask (bit : Nat) : UInt8 := (1 : UInt8) <<< (UInt8.ofNat bit)
 
+/-- `*byte & mask == mask`. -/
+def testMask (b : UInt8) (bit : Nat) : Bool := b &&& bitMask bit == bitMask bit
+
+/-- `*byte |= mask` / `*byte &= !mask`. -/
+def setMask (b : UInt8) (bit : Nat) (v : Bool) : UInt8 :=
+  if v then b ||| bitMask bit else b &&& ~~~ (bitMask bit)
+
 /-- `Page::get_pixel`. -/
 def Page.get (p : Page) (x y : Nat) : Except Panic Bool :=
   match p.indices x y with
@@ -68,7 +75,7 @@ def Page.get (p : Page) (x y : Nat) : Except Panic Bool :=
   | .ok (i, bit) =>
     match p.bytes[i]? with
     | none => .error .index
-    | some b => .ok (b &&& bitMask bit == bitMask bit)
+    | some b => .ok (testMask b bit)
 
 /-- `Page::set_pixel`. -/
 def Page.set (p : Page) (x y : Nat) (v : Bool) : Except Panic Page :=
@@ -77,9 +84,7 @@ def Page.set (p : Page) (x y : Nat) (v : Bool) : Except Panic Page :=
   | .ok (i, bit) =>
     match p.bytes[i]? with
     | none => .error .index
-    | some b =>
-      let b' := if v then b ||| bitMask bit else b &&& ~~~ (bitMask bit)
-      .ok { p with bytes := p.bytes.set i b' }
+    | some b => .ok { p with bytes := p.bytes.set i (setMask b bit v) }
 
 /-- `slice[a..b].fill(v)`; panics when `a > b` or `b > len`. -/
 def fillRange (l : List UInt8) (a b : Nat) (v : UInt8) : Except Panic (List UInt8) :=
